@@ -75,7 +75,7 @@ var ctxNames = []string{"top", "arr", "obj"}
 
 func run(c *mon.Ctx) {
 	var cells [32][3][40]int64
-	fes := append(append([]jsonfe.FE{}, jsonfe.FEs...), jsonfe.OptionFEs...)
+	fes := append(append(append([]jsonfe.FE{}, jsonfe.FEs...), jsonfe.OptionFEs...), jsonfe.ReusedFEs...)
 	nfe := len(fes)
 	confusion := make([][2][2]int64, nfe)
 	bySrc := map[string]int64{}
